@@ -5,7 +5,7 @@ import json
 import time
 
 from sim.core import COMPONENTS, EXIT_OK, EXIT_VIOLATION, REPO_SRC, H, HarnessError, digest, jdump, log, write_evidence
-from sim.engine import Engine, load_known, match_known, write_replay
+from sim.engine import Engine, dump_digests, load_known, match_known, write_replay
 from sim.popgen import date_pool
 
 PROP = "C01"
@@ -47,7 +47,7 @@ def run_check(tier: str, seed: int, runs: int | None = None, parallel: int | Non
         T["runs"] = runs
         T["exh_runs"] = max(1, runs // 3)
     dates = date_pool(REPO_SRC)
-    cfg = {"dates": dates, "pops_per_run": T["pops_per_run"], "n_random": T["n_random"], "rows": T["rows"], "sample": True}
+    cfg = {"dates": dates, "pops_per_run": T["pops_per_run"], "n_random": T["n_random"], "rows": T["rows"], "sample": True, "crowd": [270, 270, 420, 1100] if tier == "quick" else [270, 420, 1100, 2600], "crowd_p": 0.34}
     xcfg = {"dates": dates, "pops_per_run": T["exh_pops"]}
     engine = Engine(seed, parallel)
     open_known, _ = load_known(PROP)
@@ -76,6 +76,7 @@ def run_check(tier: str, seed: int, runs: int | None = None, parallel: int | Non
         total = T["runs"] + T["exh_runs"]
         results = engine.map_runs(one, range(total), progress=max(16, total // 8))
 
+        dump_digests(PROP, results)
         # determinism self-test
         import random
 
